@@ -330,8 +330,9 @@ pub struct GenericMutexLockFuture<'a, MutexType: RawMutex, T: 'a> {
 
 // Safety: Futures can be sent between threads as long as the underlying
 // mutex is thread-safe (Sync), which allows to poll/register/unregister from
-// a different thread.
-unsafe impl<'a, MutexType: RawMutex + Sync, T: 'a> Send
+// a different thread. Since the future resolves to a guard which provides
+// access to `T` on the thread that polls it, `T` needs to be `Send` too.
+unsafe impl<'a, MutexType: RawMutex + Sync, T: 'a + Send> Send
     for GenericMutexLockFuture<'a, MutexType, T>
 {
 }
